@@ -34,6 +34,9 @@ def restore_tweak(world, rng):
         if rng.random() < 0.8:
             for q in [q for q in nodes if q == pay or q.startswith(pay + b"/")]:
                 del nodes[q]
+            for n_ in nodes.values():
+                if n_.get("hardlink") == pay:
+                    n_.pop("hardlink")          # (no longer the same file as the payload)
             nodes[pay] = {"p": pay, "k": "l", "target": rng.choice([b"d1", b"../sibling", b"nowhere", b"/SBX/outside/sentinel",
                                                                       b"/SBX/outside", b"./x/../y"])}
     world["nodes"] = sorted(nodes.values(), key=lambda n: n["p"])
